@@ -28,11 +28,18 @@ fn main() {
     let out = std::io::stdout();
     let mut out = std::io::BufWriter::new(out.lock());
     let mut stats: std::collections::BTreeMap<String, u64> = Default::default();
+    // see bin/rtc.rs: a task that keeps the single-threaded runtime busy for ever is reported by a real-time watchdog
+    static CURRENT: std::sync::Mutex<String> = std::sync::Mutex::new(String::new());
+    verif_harness::typed::start_watchdog(40, || {
+        eprintln!("LIVELOCK the process made no progress for 40 s of real time while running this case:");
+        eprintln!("{}", CURRENT.lock().unwrap());
+    });
     match args.get(1).map(|s| s.as_str()) {
         Some("run") => {
             for f in &args[2..] {
                 let text = std::fs::read_to_string(f).expect("script file");
                 for case in split_cases(&text) {
+                    *CURRENT.lock().unwrap() = case.join("\n");
                     for l in run_script(&case) {
                         writeln!(out, "{l}").unwrap();
                     }
@@ -46,6 +53,7 @@ fn main() {
             for i in 0..count {
                 let mut r = rng.fork();
                 let script = rfngens::generate(&g, &mut r, i, &mut stats);
+                *CURRENT.lock().unwrap() = script.join("\n");
                 for l in run_script(&script) {
                     writeln!(out, "{l}").unwrap();
                 }
